@@ -28,6 +28,8 @@ theorem operator_table_is_modelled :
        ("OP_LT", "<", "float"), ("OP_LT_EQ", "<=", "float"), ("OP_NE", "!=", "float"),
        ("OP_STR_EQ", "==", "str"), ("OP_STR_NE", "!=", "str")] := by decide
 
+theorem reserved_names_are_modelled : Generated.reservedNames.map String.toList = reservedNames := by decide
+
 /-! ## splitting a row -/
 
 /-- **split_matches_rules.** For every row (any length) that has no space directly
@@ -218,6 +220,76 @@ theorem filter_order_witness :
     applyFilters names ['0'] "-99".toList true [fText, fNum] rows = .ok [[some ['2'], some ['7']]] ∧
     applyFilters names ['0'] "-99".toList true [fNum, fText] rows = .error .item := by
   decide +kernel
+
+/-! ## $INPUT synonyms in the $DATA filters (`replace_synonym_in_filters`) -/
+
+/-- the function is an order-preserving map over the filter list -/
+theorem replace_synonyms_map (repl : List (Str × Str)) (fs : List Filt) :
+    replaceSynonyms repl fs = fs.map (renameFilter repl) := by
+  induction fs with
+  | nil => rfl
+  | cons f fs ih => simp [replaceSynonyms, ih]
+
+theorem replace_synonyms_length (repl : List (Str × Str)) (fs : List Filt) :
+    (replaceSynonyms repl fs).length = fs.length := by
+  simp [replace_synonyms_map]
+
+/-- **order**: the i-th filter handed to the reader is the i-th filter written in `$DATA`
+    (renamed if its column has a synonym) — for every list and position. -/
+theorem replace_synonyms_order (repl : List (Str × Str)) (fs : List Filt) (i : Nat) :
+    (replaceSynonyms repl fs)[i]? = (fs[i]?).map (renameFilter repl) := by
+  simp [replace_synonyms_map]
+
+/-- operator and value are never touched; a filter on a column without synonym is unchanged;
+    a filter on a reserved name with a synonym is moved to the synonym -/
+theorem rename_filter_spec (repl : List (Str × Str)) (f : Filt) :
+    (renameFilter repl f).op = f.op ∧ (renameFilter repl f).val = f.val ∧
+    (lookupSyn repl f.col = none → renameFilter repl f = f) ∧
+    (∀ s, lookupSyn repl f.col = some s → (renameFilter repl f).col = s) := by
+  unfold renameFilter
+  cases h : lookupSyn repl f.col with
+  | none => simp
+  | some s => simp
+
+/-- **model-level filters_in_order**: with synonyms, the rows returned are those passing every
+    written filter (after renaming), in their original order -/
+theorem model_filters_in_order (names : List Str) (null missing : Str) (ig : Bool)
+    (repl : List (Str × Str)) (fs : List Filt) (rows out : List (List (Option Str)))
+    (h : applyFilters names null missing ig (replaceSynonyms repl fs) rows = .ok out) :
+    out = rows.filter (fun r => fs.all (fun f => keeps names null missing ig (renameFilter repl f) r)) := by
+  rw [filters_in_order names null missing ig _ rows out h, replace_synonyms_map]
+  congr 1
+  funext r
+  simp only [List.all_map]
+  rfl
+
+/-- **model-level order of errors**: a conversion error comes from a row that passed every filter
+    written before the failing one ("an illegal item gets ignored before it needs to be parsed"),
+    also when some of the filters are written with `$INPUT` synonyms. -/
+theorem model_filters_error_reached (names : List Str) (null missing : Str) (ig : Bool)
+    (repl : List (Str × Str)) (fs : List Filt) (rows : List (List (Option Str))) (e : RErr)
+    (h : applyFilters names null missing ig (replaceSynonyms repl fs) rows = .error e) :
+    e = .signedOnEmpty ∨
+    ∃ pre f post r, fs = pre ++ f :: post ∧ r ∈ rows ∧
+      pre.all (fun g => keeps names null missing ig (renameFilter repl g) r) = true ∧
+      condHolds names null missing (renameFilter repl f) r = .error e := by
+  rcases filters_error_reached names null missing ig _ rows e h with h1 | ⟨pre', g, post', r, hfs, hm, hall, hc⟩
+  · exact Or.inl h1
+  · right
+    rw [replace_synonyms_map] at hfs
+    obtain ⟨pre, tl, hsplit, hpre, htl⟩ := List.map_eq_append_iff.mp hfs
+    obtain ⟨f, post, htl2, hf, _⟩ := List.map_eq_cons_iff.mp htl
+    refine ⟨pre, f, post, r, by rw [hsplit, htl2], hm, ?_, by rw [hf]; exact hc⟩
+    rw [← hpre] at hall
+    simpa [List.all_map] using hall
+
+theorem synonym_filter_order_witness :
+    let opts : List InOpt := [⟨"ID".toList, none⟩, ⟨"CONC".toList, some "DV".toList⟩, ⟨"WGT".toList, none⟩]
+    let fs : List Filt := [⟨"DV".toList, .seq, "EXCL".toList⟩, ⟨"WGT".toList, .gt, "100".toList⟩]
+    (parseColumnInfo opts 1).map (fun c => (c.names, replaceSynonyms c.repl fs)) =
+      some (["ID", "CONC", "WGT"].map String.toList,
+            [⟨"CONC".toList, .seq, "EXCL".toList⟩, ⟨"WGT".toList, .gt, "100".toList⟩]) := by
+  decide
 
 /-! ## numbers -/
 
